@@ -61,7 +61,7 @@ CLAIMED = {
         "transposition. Tied to the code on every run: compute_dstatedt with and without chemostats, make_dxdtf, 1-2 Euler steps (verdict "
         "accept_C01 under chemostat maps drawn as subsets / whole species / whole cells / only species of index >= 1), every sample of "
         "trajectories of the three engines on grid and graph (flagged entries bitwise constant), RDSystem.apply_reaction by index / label / "
-        "object on the system state, an explicit state and map, and with update.",
+        "object on the system state, an explicit state and map, and with update. A third of the chemostat maps carry integer flags other than 1 (2, 3, 5 - any non-zero entry is a chemostat; finding F22 came from these); the reservoir runs have somewhere to leak to and in most of them diffusion sets the pace.",
         "Trusted: Coq kernel + VM; hand-written models tied by sampled correspondence (110 + 900 + 150 cases quick; trajectories all "
         "screened by the property oracle, 150 plus objections judged in Coq); which events the stochastic engines draw is C07's subject; "
         "binary64 vs exact at 1e-9 x magnitude; g++ -O2; the Python harness.",
@@ -132,7 +132,7 @@ CLAIMED = {
         "propensities read them; dt = ln(1/u2)/a0 is positive and exceeds tau iff u2 < exp(-a0 tau). Tied to the code on every run by "
         "EXACT REPLAY: the engine (compiled from the working tree) records every state and time of Gillespie and tau-leap runs on random "
         "systems; Coq derives the uniforms from the seed, predicts every event, every waiting time (enclosure of exp around u2) and every "
-        "tau-leap firing count (libstdc++ small-mean Poisson) and compares the resulting states exactly.",
+        "tau-leap firing count (libstdc++ small-mean Poisson) and compares the resulting states exactly. A fifth of the replayed runs have a well stocked chemostated cell or species as the only source (exempt from the change, not from the propensity).",
         "Trusted: Coq kernel + VM; the hand-written models of ReactionProp / DiffusionProp / ComputePropensities / DrawAndApplyEvent / "
         "Compute_nevt / Apply_nevt and of mt19937, libstdc++ 12's generate_canonical and poisson_distribution (mean < 12), all tied by the "
         "replay itself (140 runs / ~1800 steps quick; 3000 runs thorough); the fixed-point enclosure of exp(-y) (evaluator, checked "
@@ -170,7 +170,7 @@ CLAIMED = {
         "clock, step nor records; the export loop writes sample n, species s, cell i at n*S*C + s*C + i. Tied to the code on every run: "
         "random scripts x three engines x grid/graph x four policies, call sequences mixing iterate, iterate_n, run(0), sample and "
         "continuing after completion; trajectory.t, len(data), is_complete and get_progress after each call, the engine clock and the "
-        "content of each record are compared with the model (exactly; the Gillespie model is driven by the observed clock increments). String enumerations re-read from the source on every run (harness/translate_enums.py, fail-closed; Model/Enums.v, obligations in Proofs/EnumFacts.v by closed computation): every sampling policy the script accepts is dispatched by both engine initialisers (grid, graph) to the same code, whose case in SamplingStep of the respective base class calls the sampler the policy names, and the engine knows no other policy string (C09_policy_dispatch).",
+        "content of each record are compared with the model (exactly; the Gillespie model is driven by the observed clock increments). String enumerations re-read from the source on every run (harness/translate_enums.py, fail-closed; Model/Enums.v, obligations in Proofs/EnumFacts.v by closed computation): every sampling policy the script accepts is dispatched by both engine initialisers (grid, graph) to the same code, whose case in SamplingStep of the respective base class calls the sampler the policy names, and the engine knows no other policy string (C09_policy_dispatch). In a third of the runs the output is also fetched along the way (a pure read).",
         "Trusted: Coq kernel + VM; the hand-written model of Init / SamplingStep / SampleOnTSample / SampleOnInterval / Sample / CheckTMax / "
         "Iterate / iterate_n (the chemical state is abstracted to its step number; the order of the two tests in SampleOnTSample's loop "
         "condition is C11's subject) tied by sampled correspondence (400 scripts quick, 8000 thorough); clocks are dyadic so that binary64 "
@@ -318,7 +318,7 @@ CLAIMED = {
         "last), closest the nearer of the bracketing pair with ties to the earlier and the end samples outside the range. Tied to "
         "rdoutput.py on every run: exhaustive over shapes N,S,C <= 4 (5 thorough) x grid/graph, every triple through every accessor "
         "with species by index/label/object and cells by index/tuple/object, sample times with and without duplicates, queries "
-        "before/after/on/between samples in several time units; verdict in Coq (exact equality for reads). String enumerations re-read from the source on every run (harness/translate_enums.py, fail-closed; Model/Enums.v, obligations in Proofs/EnumFacts.v by closed computation): the look-up policies get_sample_index accepts are exactly closest, supeq, infeq (C17_lookup_policies). Grids take every factorisation of the cell count, plus 16x17x1 and 7x6x7; cells are referred to by index, tuple, list, x/y/z object, numpy rows of uint8 / int16 / int64 / float64, numpy integers and points inside the cell.",
+        "before/after/on/between samples in several time units; verdict in Coq (exact equality for reads). String enumerations re-read from the source on every run (harness/translate_enums.py, fail-closed; Model/Enums.v, obligations in Proofs/EnumFacts.v by closed computation): the look-up policies get_sample_index accepts are exactly closest, supeq, infeq (C17_lookup_policies). Grids take every factorisation of the cell count, plus 16x17x1 and 7x6x7; cells are referred to by index, tuple, list, x/y/z object, numpy rows of uint8 / int16 / int64 / float64, numpy integers and points inside the cell. A third of the trajectories carry the script of another system than the one their data are laid out on (coarse-grained runs); an accessor that raises on a valid reference is an observation.",
         "Trusted: Coq kernel + VM; the hand-written model of the numpy reshape-based accessors (row-major) and of the three look-up "
         "loops, tied by the exhaustive sweep on the stated bound; closest is claimed on strictly increasing times only (with duplicate "
         "times 'ties to the earlier' is not meaningful); negative / out-of-range sample indices are not part of the statement; queries "
@@ -376,7 +376,7 @@ CLAIMED = {
         "naming an environment outside [0, nenv); unknown boundary condition / axis / sampling policy / processing mode; empty environment "
         "list and 'default'; positions outside grids and graphs through six accessors; unknown species; invalid coarse-graining maps. "
         "Which inputs are invalid is computed by `invalid` (Model/AcceptC20.v) from the models of C05/C06/C12/C15/C16/C18; the package must "
-        "raise exactly on those and leave state and chemostat map untouched. String enumerations re-read from the source on every run (harness/translate_enums.py, fail-closed; Model/Enums.v, obligations in Proofs/EnumFacts.v by closed computation): what the validators accept - sampling policies, processing modes, axes, boundary conditions, look-up policies - is what the documentation lists, no more and no less (C20_validators_agree); the correspondence draws look-up policies too (finding F21).",
+        "raise exactly on those and leave state and chemostat map untouched. String enumerations re-read from the source on every run (harness/translate_enums.py, fail-closed; Model/Enums.v, obligations in Proofs/EnumFacts.v by closed computation): what the validators accept - sampling policies, processing modes, axes, boundary conditions, look-up policies - is what the documentation lists, no more and no less (C20_validators_agree); the correspondence draws look-up policies too (finding F21). Wrong dimensions are also given as quantity objects: one entry of a per-environment dictionary (species D and density, reaction constants; constructor and setter), script times, node volumes, edge surfaces and distances.",
         "Trusted: Coq kernel + VM; `invalid` for the classes that are plain range / membership tests (sizes, environment maps and names, "
         "choices, graph positions, species references) is the specification itself, read off the statement; sampled injection sites; "
         "get_species_index returning None (documented) counts as a rejection; the translator harness/translate_enums.py (Python ast for the validators' membership tests and engine_collection.py; regular expressions over comment-free engine.cpp / *Base.hpp for the CompareStr chains and the SamplingStep switch; any other shape is an error); the Python harness.",
